@@ -432,7 +432,6 @@ def main():
     req = json.load(sys.stdin)
     members_of = req.get("enums", {})
     PRED.update(req.get("pred", {}))
-    obs = []
     def guarded(f, *a):
         # last resort: a harness-side error while observing ONE query must not take the batch down
         try:
@@ -440,8 +439,46 @@ def main():
         except Exception as e:   # noqa
             return ["skip", "runner: %s: %s" % (type(e).__name__, str(e)[:200])]
 
-    for q in req.get("queries", []):
-        obs.append(guarded(lambda q: run_query(dict(q, val=fix_enum_vals(q["val"], members_of))), q))
+    def one(q):
+        return run_query(dict(q, val=fix_enum_vals(q["val"], members_of)))
+
+    def with_history(q):
+        # a query with a HISTORY: the earlier parses and the query itself run in a forked child of this still pristine
+        # process (nothing of jsonargparse has run in it), so the history is exactly the one the case states
+        import os
+
+        import jsonargparse  # noqa: imported (nothing parsed yet) so that the children need not import it again
+
+        r, w = os.pipe()
+        pid = os.fork()
+        if pid == 0:
+            try:
+                os.close(r)
+                for b in q["before"]:
+                    guarded(one, b)
+                out = guarded(one, q)
+                os.write(w, json.dumps(out).encode())
+            finally:
+                os._exit(0)
+        os.close(w)
+        data = b""
+        while True:
+            chunk = os.read(r, 65536)
+            if not chunk:
+                break
+            data += chunk
+        os.close(r)
+        os.waitpid(pid, 0)
+        return json.loads(data.decode()) if data else ["skip", "history child gave no answer"]
+
+    queries = req.get("queries", [])
+    obs = [None] * len(queries)
+    for i, q in enumerate(queries):          # first, while this process is pristine
+        if q.get("before"):
+            obs[i] = guarded(with_history, q)
+    for i, q in enumerate(queries):
+        if not q.get("before"):
+            obs[i] = guarded(one, q)
     # the loader oracle needs a parser context for nothing: yaml_load is context free
     orc = {}
     todo = list(req.get("strings", []))
